@@ -23,6 +23,7 @@ var commands = map[string]func([]string){
 	"c09":       cmdC09,
 	"loadcheck": cmdLoadcheck,
 	"s10":       cmdS10,
+	"s12":       cmdS12,
 }
 
 func main() {
